@@ -765,6 +765,16 @@ class Verifier(Exec):
             ev = SpecEval(self, st, env, None, 'modifies ' + loc)
             if m2 or m:
                 base = ev.ev(parse_expr((m2 or m).group(1)))
+                if m2 and isinstance(base, PtrV) and self.kind(base.elem) == 'array' and self.kind(self.U(base.elem)['elem']) == 'array' \
+                        and self.is_scalar(self.U(self.U(base.elem)['elem'])['elem']) and self.U(base.elem)['len'] <= 16:
+                    # a (global) matrix: one region per row
+                    ot_ = self.U(base.elem)
+                    rt_ = self.U(ot_['elem'])
+                    ba_ = base.addr if base.addr is not None else ('obj', base.elem, base.term)
+                    for ri_ in range(ot_['len']):
+                        ra_ = self.addr_term(st, ('idx', ba_, I(ri_), ot_['elem']))
+                        regs.append(('slice', self.elem_key(rt_['elem']), ra_, ZERO, I(rt_['len'])))
+                    continue
                 if isinstance(base, PtrV) and self.kind(base.elem) == 'array':
                     # an array embedded in a struct (or a global array): the region is addressed by the array's own address
                     at_ = self.U(base.elem)
@@ -801,6 +811,8 @@ class Verifier(Exec):
                 e = e[1]
             if e[0] == 'id' and not loc.startswith('*') and fld is None and ('free:' + e[1]) in st.regs:
                 v = st.regs['free:' + e[1]]        # a captured variable itself
+            elif e[0] == 'id' and not loc.startswith('*') and fld is None and e[1] not in env and (self.fn['pkg'] + '.' + e[1]) in self.prog.globals:
+                v = self.val(st, {'k': 'global', 'n': self.fn['pkg'] + '.' + e[1]})      # a package variable itself
             else:
                 v = ev.ev(e)
             if not isinstance(v, PtrV):
